@@ -26,6 +26,10 @@ RULE = ("a case = (type hint, input, channel). Type hints: every hint of the gra
         "alone and every permutation; plain scalar / Optional / Union / Literal hints with every conforming declared default "
         "(0, 1, 2, 0.0, 1.0, 2.0, False, True, 'a', '1', 'null', 'true') x every scalar value incl. equal-but-other-kind ones "
         "(True vs 1 vs 1.0, 0 vs False) as typed objects and as text. "
+        "restricted string types declared from compiled patterns with IGNORECASE / DOTALL / ASCII / MULTILINE flags (alone and in "
+        "Unions) with texts on which the flag decides, the declared predicate evaluated by Python re in the harness; Unions of "
+        "TypedDict classes (4 classes, pairs and triples in several orders, beside plain members) with values whose earlier field "
+        "converts and later field fails, missing / extra keys, text. "
         "Set cases: Set[T] (also inside List/Dict/Optional/Tuple) for ten item types given ORDERED inputs (list, tuple, text) "
         "containing every ordered pair of == items of different kinds (1/True/1.0, 0/False/0.0, 2/2.0), alone and with company, "
         "plus conforming and random item sequences; every item stand-alone. "
@@ -46,6 +50,8 @@ ASSUMPTIONS = [
     "to conform to the hint",
     "registered/restricted members are opaque: what adapt_typehints(value, member) returns or that it raises is observed, and any "
     "exception counts as a member failure (as `except Exception` in the trial loop does); they occur only as direct Union members",
+    "TypedDict members are total, with fields of the modelled grammar; their behaviour is observed, their conformance is judged "
+    "from the declared fields; the declared predicate of the flagged restricted string types is computed with Python's re",
     "an int beyond the float range is not given to a modelled `float` member (Model/Ty.v's float(int) has no OverflowError branch)",
     "floats are compared as decimals (<= 15 significant digits); a resulting set is compared in the canonical order ints, strs, "
     "False, True, then at most one other item",
@@ -512,6 +518,37 @@ def group_cases(rng, tier):
 # -----------------------------------------------------------------------------------------------------------------
 # cases with registered / restricted Union members (opaque: behaviour observed) and with declared defaults
 # -----------------------------------------------------------------------------------------------------------------
+# restricted string types declared from a compiled pattern WITH flags: the declared predicate is evaluated here (Python re, in
+# the harness process) and handed to the judge, independently of what the implementation under test does
+PRED = {"LowerCI": ["^[a-z]{2,}$", ["IGNORECASE"]], "DotAll": ["^a.b$", ["DOTALL"]], "AsciiWord": [r"^\w+$", ["ASCII"]],
+        "MultiL": ["^ab$", ["MULTILINE"]], "Plain": ["^[a-z]+$", []]}
+TDS = [["td", "Measure", [["x", ["float"]], ["y", ["int"]]]], ["td", "Label", [["x", ["int"]], ["y", ["str"]]]],
+       ["td", "Opt", [["x", ["union", [["int"], ["none"]]]], ["y", ["list", ["int"]]]]], ["td", "Flag", [["x", ["bool"]], ["y", ["str"]]]]]
+TD_VALUES = [["dict", [[["str", "x"], ["int", "1"]], [["str", "y"], ["str", "s"]]]],
+             ["dict", [[["str", "x"], ["int", "1"]], [["str", "y"], ["int", "2"]]]],
+             ["dict", [[["str", "x"], ["float", "1.5"]], [["str", "y"], ["int", "2"]]]],
+             ["dict", [[["str", "x"], ["str", "1"]], [["str", "y"], ["int", "2"]]]],
+             ["dict", [[["str", "x"], ["bool", True]], [["str", "y"], ["str", "s"]]]],
+             ["dict", [[["str", "x"], ["none"]], [["str", "y"], ["list", [["str", "1"], ["int", "2"]]]]]],
+             ["dict", [[["str", "x"], ["int", "1"]], [["str", "y"], ["list", [["int", "1"]]]]]],
+             ["dict", [[["str", "y"], ["int", "2"]], [["str", "x"], ["int", "3"]]]],
+             ["dict", [[["str", "x"], ["int", "1"]]]], ["dict", []],
+             ["dict", [[["str", "x"], ["int", "1"]], [["str", "y"], ["int", "2"]], [["str", "z"], ["int", "3"]]]],
+             ["str", '{"x": 1, "y": "s"}'], ["str", "{x: 2, y: 3}"], ["int", "1"], ["list", []], ["none"]]
+PRED_VALUES = [["str", "ABC"], ["str", "abc"], ["str", "Ab"], ["str", "a"], ["str", "a\nb"], ["str", "axb"], ["str", "caf\u00e9"],
+               ["str", "cafe_1"], ["str", "ab"], ["str", "ab\ncd"], ["str", "x\nab"], ["str", ""], ["str", "null"], ["int", "1"],
+               ["str", "AB\n"], ["str", "a b"]]
+
+
+def pred_matches(name, text):
+    import re
+    pat, flags = PRED[name]
+    fl = 0
+    for f in flags:
+        fl |= getattr(re, f)
+    return re.compile(pat, fl).match(text) is not None
+
+
 OPQ = ["PositiveFloat", "PositiveInt", "ClosedUnitInterval", "NonNegativeInt", "Decimal", "Email", "NotEmptyStr", "StrColor", "Picky"]
 X_MODELLED = [["int"], ["str"], ["bool"], ["float"], ["none"], ["list", ["int"]], ["lit", [["int", "1"], ["int", "2"]]],
               ["dict", "str", ["int"]]]
@@ -561,7 +598,7 @@ def x_cases(rng, tier):
     cases, seen = [], set()
 
     def add(ms, dflt, v):
-        if any(huge(v) and m[0] != "opq" and mentions_float(m) for m in ms):
+        if any(huge(v) and m[0] not in ("opq", "td") and mentions_float(m) for m in ms):
             return     # Model/Ty.v's float(int) has no OverflowError (31e6cde): out of the modelled space
         key = json.dumps([ms, dflt, v])
         if key not in seen:
@@ -590,6 +627,29 @@ def x_cases(rng, tier):
         vals = X_VALUES if not quick else rng.sample(X_VALUES, 9) + [["int", str(BIG)], ["str", "abc"]]
         for v in vals:
             add(ms, None, v)
+    # (1b) restricted strings declared with regex flags: alone and in Unions, candidates on which the flag decides
+    for n in PRED:
+        for v in PRED_VALUES:
+            add([["opq", n]], None, v)
+        others = [["opq", m] for m in PRED if m != n] + [["int"], ["none"], ["list", ["int"]], ["opq", "PositiveInt"]]
+        for _ in range(2 if quick else 6):
+            ms = [["opq", n]] + rng.sample(others, rng.choice([1, 2]))
+            rng.shuffle(ms)
+            for v in (rng.sample(PRED_VALUES, 8) if quick else PRED_VALUES):
+                add(ms, None, v)
+    # (1c) TypedDict members (behaviour observed, conformance by the declared fields): every pair and triple, every order
+    for size in (2, 3):
+        for combo in itertools.combinations(TDS, size):
+            for ms in ([list(combo)] if quick and size == 3 else [list(p) for p in itertools.permutations(combo)][: (2 if quick else 6)]):
+                for v in (TD_VALUES if not quick or size == 2 else rng.sample(TD_VALUES, 6)):
+                    add(ms, None, v)
+    for td in TDS:
+        for other in (["int"], ["none"], ["dict", "str", ["int"]], ["list", ["int"]]):
+            for ms in ([td, other], [other, td]):
+                for v in (TD_VALUES if not quick else rng.sample(TD_VALUES, 5)):
+                    add(ms, None, v)
+        for v in TD_VALUES:
+            add([td], None, v)
     # (2) declared defaults: every conforming scalar default x every scalar value, typed objects and text
     hints = [["int"], ["float"], ["bool"], ["str"], ["union", [["int"], ["none"]]], ["union", [["int"], ["str"]]],
              ["union", [["bool"], ["float"]]], ["lit", [["int", "1"], ["int", "2"]]], ["union", [["str"], ["none"]]]]
@@ -769,7 +829,7 @@ def observe(cases):
                 continue
             qs += case_queries(c)
             strings_of(c["val"], strs)
-        payloads.append({"queries": qs, "strings": sorted(strs), "groups": groups, "enums": ENUMS, "xqueries": xqs})
+        payloads.append({"queries": qs, "strings": sorted(strs), "groups": groups, "enums": ENUMS, "xqueries": xqs, "pred": PRED})
     results = run_impl_parallel("c02_run.py", payloads, timeout=1500)
     out = [None] * len(cases)
     for ch, res in zip(chunks, results):
@@ -914,7 +974,23 @@ def g_obs(o):
     return "Rejected" if o[0] == "rej" else "Crashed"
 
 
+def pred_table(case, obs):
+    """the declared predicate of every flagged restricted-string member on every text of the case (input and result)"""
+    names = [m[1] for m in case["ms"] if m[0] == "opq" and m[1] in PRED]
+    texts = set()
+    if case["val"][0] == "str":
+        texts.add(case["val"][1])
+    o = obs["obs"]
+    if o[0] == "ok" and o[1][0] == "opaque":
+        texts.add(o[1][2])
+    if o[0] == "ok" and o[1][0] == "str":
+        texts.add(o[1][1])
+    return [[n, t, pred_matches(n, t)] for n in names for t in sorted(texts)]
+
+
 def g_member(m):
+    if m[0] == "td":
+        return "MTd %s %s" % (g_str(m[1]), g_list([g_pair(g_str(f), "(%s)" % g_ty(t)) for f, t in m[2]], "(str * ty)"))
     return "MOpq %s" % g_str(m[1]) if m[0] == "opq" else "MTy (%s)" % g_ty(m)
 
 
@@ -930,9 +1006,10 @@ def term(case, obs):
                       for n, b, a in obs["rec"]], "(str * val * ares)")
         perms = g_list([g_pair(g_list(["%d%%nat" % i for i in pm], "nat"), g_bool(a)) for pm, a in zip(case["perms"], obs["perms"])],
                        "(list nat * bool)")
-        return ("XCase {| x_ms := %s; x_dflt := %s; x_in := %s; x_oracle := %s; x_opq := %s; x_obs := %s; x_parts := %s; "
+        pr = g_list(["(%s, %s, %s)" % (g_str(n), g_str(t), g_bool(b)) for n, t, b in pred_table(case, obs)], "(str * str * bool)")
+        return ("XCase {| x_ms := %s; x_dflt := %s; x_in := %s; x_oracle := %s; x_opq := %s; x_pred := %s; x_obs := %s; x_parts := %s; "
                 "x_perms := %s |}" % (g_list([g_member(m) for m in case["ms"]], "member"),
-                                      g_opt(None if case["dflt"] is None else "(%s)" % g_val(case["dflt"])), g_val(case["val"]), orc, tbl,
+                                      g_opt(None if case["dflt"] is None else "(%s)" % g_val(case["dflt"])), g_val(case["val"]), orc, tbl, pr,
                                       g_obs(obs["obs"]), g_list([g_bool(b) for b in obs["parts"]], "bool"), perms))
     if case["kind"] == "group":
         fs = g_list([g_pair(g_str(n), "(%s)" % g_ty(t)) for n, t in case["fields"]], "(str * ty)")
@@ -978,7 +1055,9 @@ def category(case, obs):
     if "skip" in obs:
         return "NOT EVALUATED (the harness could not build the hint or the input)"
     if case["kind"] == "x":
-        return "%s/%s/%s input/%s" % ("Union with registered member" if any(m[0] == "opq" for m in case["ms"]) else "plain hint",
+        return "%s/%s/%s input/%s" % ("TypedDict member" if any(m[0] == "td" for m in case["ms"]) else
+                                      "restricted string with regex flags" if any(m[0] == "opq" and m[1] in PRED for m in case["ms"]) else
+                                      "Union with registered member" if any(m[0] == "opq" for m in case["ms"]) else "plain hint",
                                       "default" if case["dflt"] is not None else "no default",
                                       "text" if case["val"][0] == "str" else "object", obs["obs"][0])
     if case["kind"] == "group":
@@ -1038,6 +1117,10 @@ def show_obs(o):
 
 
 def show_member(m):
+    if m[0] == "td":
+        return "%s(TypedDict: %s)" % (m[1], ", ".join("%s: %s" % (f, show_ty(t)) for f, t in m[2]))
+    if m[0] == "opq" and m[1] in PRED:
+        return "%s(restricted_string_type(re.compile(%r, %s)))" % (m[1], PRED[m[1]][0], "|".join(PRED[m[1]][1]) or "0")
     return m[1] if m[0] == "opq" else show_ty(m)
 
 
